@@ -412,6 +412,8 @@ fn pump_across<X, I: Iterator<Item = X>>(
     tick: &dyn Fn() -> u64,
     emit: &mut dyn FnMut(Option<Seen>, u64, u64),
     mid: &mut dyn FnMut(),
+    after: usize,
+    pause: &dyn Fn(),
 ) {
     let mut n = 0;
     while n < max {
@@ -426,47 +428,50 @@ fn pump_across<X, I: Iterator<Item = X>>(
         }
     }
     mid();
-    for _ in 0..2 {
+    for _ in 0..after {
         let t0 = tick();
         let r = it.next().map(conv);
         let t1 = tick();
-        let stop = r.is_none();
         emit(r, t0, t1);
-        if stop {
-            break;
-        }
+        pause();
     }
 }
 
 impl Rx {
+    /// `mid` receives the receiver itself (shared borrow, as the iterator holds one too), so that it
+    /// can clone it while the iterator is alive; afterwards `after` more `next()` calls, each
+    /// followed by `pause()`.
     pub fn try_iter_across(
-        &mut self,
+        &self,
         max: usize,
         variant: u8,
         tick: &dyn Fn() -> u64,
         emit: &mut dyn FnMut(Option<Seen>, u64, u64),
-        mid: &mut dyn FnMut(),
+        mid: &mut dyn FnMut(&Rx),
+        after: usize,
+        pause: &dyn Fn(),
     ) -> Option<()> {
+        let mut m = || mid(self);
         match self {
             Rx::B(r) => Some(if variant % 2 == 0 {
-                pump_across(r.try_iter(), max, conv_t, tick, emit, mid)
+                pump_across(r.try_iter(), max, conv_t, tick, emit, &mut m, after, pause)
             } else {
-                pump_across((&*r).into_iter(), max, conv_t, tick, emit, mid)
+                pump_across((&*r).into_iter(), max, conv_t, tick, emit, &mut m, after, pause)
             }),
             Rx::M(r) => Some(if variant % 2 == 0 {
-                pump_across(r.try_iter(), max, conv_t, tick, emit, mid)
+                pump_across(r.try_iter(), max, conv_t, tick, emit, &mut m, after, pause)
             } else {
-                pump_across((&*r).into_iter(), max, conv_t, tick, emit, mid)
+                pump_across((&*r).into_iter(), max, conv_t, tick, emit, &mut m, after, pause)
             }),
             Rx::BU(r) => Some(if variant % 2 == 0 {
-                pump_across((&*r).into_iter(), max, conv_t, tick, emit, mid)
+                pump_across((&*r).into_iter(), max, conv_t, tick, emit, &mut m, after, pause)
             } else {
-                pump_across(r.try_iter_with(|t| t.view()), max, conv_s, tick, emit, mid)
+                pump_across(r.try_iter_with(|t| t.view()), max, conv_s, tick, emit, &mut m, after, pause)
             }),
             Rx::MU(r) => Some(if variant % 2 == 0 {
-                pump_across((&*r).into_iter(), max, conv_t, tick, emit, mid)
+                pump_across((&*r).into_iter(), max, conv_t, tick, emit, &mut m, after, pause)
             } else {
-                pump_across(r.try_iter_with(|t| t.view()), max, conv_s, tick, emit, mid)
+                pump_across(r.try_iter_with(|t| t.view()), max, conv_s, tick, emit, &mut m, after, pause)
             }),
             _ => None,
         }
